@@ -12,6 +12,9 @@ def alphabet(keys):
     for k in keys:
         al += [f"C 1 set {k} p1", f"C 2 set {k} p2"]
         for v in (0, 1, 2, 5): al.append(f"C 2 set-safe {k} {v} s{v}")
+        # the same writes as they arrive from another node (a secondary forwarding its client's write, the primary's copy): the cluster
+        # command goes through the same strategy
+        for v in (-1, 0, 1, 5): al.append(f"C 1 replicate t {k} {v} r{v}")
         al += [f"C 1 get-safe {k}", f"C 1 remove {k}"]
     al.append("C 1 snapshot false\nSNAP")
     return al
@@ -21,7 +24,7 @@ class C19(Spec):
     lean_module = "NunVerif.Props.C19"
     theorems = ["Nun.C19_write", "Nun.C19_write_inv", "Nun.C19_replica_agreement", "Nun.newer_apply_accepted", "Nun.setValue_accepted",
                 "Nun.C19_pin_admin_newer", "Nun.C19_pin_restored_newer"]
-    rule = ("newer-strategy database: all sequences of length L of plain and versioned writes (versions 0,1,2,5 against every reachable current version) to a key from two sessions, "
+    rule = ("newer-strategy database: all sequences of length L of plain and versioned writes (versions 0,1,2,5 against every reachable current version) to a key from two sessions and the same writes arriving as the cluster command `replicate <db> <key> <version> <value>`, "
             "get-safe, remove and snapshots, with a watcher; the admin database ($admin, newer by construction) and a database restored without metadata are covered by corpus cases; "
             "seeded random sequences over 2 keys. non-trivial = at least one stale versioned write (resolved, not refused); distinct by trace hash")
 
@@ -98,6 +101,7 @@ class C19(Spec):
                 p = inp.split(" ")
                 r = next((x for x in rest if x.startswith("R ")), "R ?")
                 if r.startswith("R PANIC"): fails.append(Failure("panic", f"{inp}: {r}")); break
+                if p[2] == "replicate" and len(p) >= 7 and p[3] == "t": p = [p[0], p[1], "set-safe", p[4], p[5]] + p[6:]      # replicate <db> <key> <version> <value>
                 if p[2] in ("set", "set-safe") and len(p) >= 5 and p[3] in ("a", "b"):
                     k = p[3]; val = core.unesc(" ".join(p[5:] if p[2] == "set-safe" else p[4:])).decode()
                     if r != "R ok":
